@@ -2,7 +2,9 @@ package compose
 
 import (
 	"fmt"
+	"os"
 	"sort"
+	"strconv"
 	"sync"
 	"testing"
 	"time"
@@ -11,11 +13,13 @@ import (
 )
 
 // TestCalibrate: every generated program renders as the reference interpreter predicts.
-// Run with -v to see the class histogram and the time spent.
+// Run with -v to see the class histogram, the sizes and the time spent:
+//
+//	go test -count=1 -v -run TestCalibrate ./internal/compose -rapid.checks=5000
 func TestCalibrate(t *testing.T) {
 	var mu sync.Mutex
 	hist := map[string]int{}
-	n, nontrivial := 0, 0
+	n, nontrivial, maxNodes, maxDepth, sumNodes := 0, 0, 0, 0, 0
 	start := time.Now()
 	defer func() {
 		mu.Lock()
@@ -25,7 +29,8 @@ func TestCalibrate(t *testing.T) {
 			keys = append(keys, k)
 		}
 		sort.Strings(keys)
-		out := fmt.Sprintf("cases=%d nontrivial=%d elapsed=%s\n", n, nontrivial, time.Since(start).Round(time.Millisecond))
+		out := fmt.Sprintf("cases=%d nontrivial=%d elapsed=%s nodes(avg/max)=%d/%d depth(max)=%d\n",
+			n, nontrivial, time.Since(start).Round(time.Millisecond), sumNodes/max(n, 1), maxNodes, maxDepth)
 		for _, k := range keys {
 			out += fmt.Sprintf("  %-36s %6d  %5.1f%%\n", k, hist[k], 100*float64(hist[k])/float64(max(n, 1)))
 		}
@@ -34,6 +39,7 @@ func TestCalibrate(t *testing.T) {
 	rapid.Check(t, func(rt *rapid.T) {
 		c := Gen(rt)
 		nt, classes := Classify(c)
+		nodes, depth := Size(c)
 		mu.Lock()
 		n++
 		if nt {
@@ -42,9 +48,27 @@ func TestCalibrate(t *testing.T) {
 		for _, k := range classes {
 			hist[k]++
 		}
+		sumNodes += nodes
+		maxNodes = max(maxNodes, nodes)
+		maxDepth = max(maxDepth, depth)
 		mu.Unlock()
 		if err := Check(c); err != nil {
 			rt.Fatalf("%v", err)
 		}
 	})
+}
+
+// TestDump prints a few generated programs with their classes (COMPOSE_DUMP=n).
+func TestDump(t *testing.T) {
+	n, _ := strconv.Atoi(os.Getenv("COMPOSE_DUMP"))
+	if n == 0 {
+		t.Skip("set COMPOSE_DUMP=n")
+	}
+	g := rapid.Custom(Gen)
+	for i := 0; i < n; i++ {
+		c := g.Example(i)
+		_, classes := Classify(c)
+		res := Interpret(c)
+		t.Logf("seed %d classes=%v unspecified=%q gray=%d\n%s", i, classes, res.Unspecified, res.Gray, c.Dump())
+	}
 }
